@@ -57,6 +57,9 @@ typedef struct {
   NiceSocket *base_socket;
   GQueue send_queue;
   NicePseudoSSLSocketCompatibility compatibility;
+  /* Server hello bytes received so far. */
+  guint8 hello_buf[83];
+  gsize hello_len;
 } PseudoSSLPriv;
 
 
@@ -217,27 +220,39 @@ socket_recv_messages (NiceSocket *sock,
           recv_messages, n_recv_messages);
     }
   } else {
-    guint8 data[MAX(sizeof(SSL_SERVER_GOOGLE_HANDSHAKE),
-          sizeof(SSL_SERVER_MSOC_HANDSHAKE))];
     gint ret = -1;
-    GInputVector local_recv_buf = { data, sizeof(data) };
+    gsize hello_size;
+    GInputVector local_recv_buf;
     NiceInputMessage local_recv_message = { &local_recv_buf, 1, NULL, 0 };
 
+    G_STATIC_ASSERT (sizeof (priv->hello_buf) >=
+        MAX (sizeof (SSL_SERVER_GOOGLE_HANDSHAKE),
+            sizeof (SSL_SERVER_MSOC_HANDSHAKE)));
 
     if (priv->compatibility == NICE_PSEUDOSSL_SOCKET_COMPATIBILITY_MSOC) {
-      local_recv_buf.size = sizeof(SSL_SERVER_MSOC_HANDSHAKE);
+      hello_size = sizeof(SSL_SERVER_MSOC_HANDSHAKE);
     } else {
-      local_recv_buf.size = sizeof(SSL_SERVER_GOOGLE_HANDSHAKE);
+      hello_size = sizeof(SSL_SERVER_GOOGLE_HANDSHAKE);
     }
+    /* The hello may arrive in several TCP segments: collect it. */
+    local_recv_buf.buffer = priv->hello_buf + priv->hello_len;
+    local_recv_buf.size = hello_size - priv->hello_len;
     if (priv->base_socket) {
       ret = nice_socket_recv_messages (priv->base_socket,
           &local_recv_message, 1);
     }
 
-    if (ret <= 0) {
+    if (ret <= 0)
       return ret;
-    } else if (ret == 1 && server_handshake_valid(sock, &local_recv_buf,
-            local_recv_message.length)) {
+
+    priv->hello_len += local_recv_message.length;
+    if (priv->hello_len < hello_size)
+      return 0;
+
+    local_recv_buf.buffer = priv->hello_buf;
+    local_recv_buf.size = hello_size;
+
+    if (server_handshake_valid(sock, &local_recv_buf, priv->hello_len)) {
       priv->handshaken = TRUE;
       nice_socket_flush_send_queue (priv->base_socket, &priv->send_queue);
     } else {
